@@ -72,6 +72,7 @@ def gen(rng, kind, tier):
     case = {"grid": spec, "image": {"type": t, "seed": int(rng.integers(1 << 30))}, "rule": thr,
             "minimal_radius": str(rng.choice(["-inf", "0", "0", "0.6", "1.2"])),
             "a": float(rng.choice([0.25, 0.5, 2.0, 8.0, 1.0])), "b": float(rng.integers(-40, 41)) / 8.0,
+            "extreme_map": bool(rng.random() < 0.15),
             "refine": bool(rng.random() < 0.06), "thr_seed": int(rng.integers(1 << 30))}
     return case
 
@@ -226,6 +227,10 @@ def run(case, rec):
     rec.check(all(d.radius > rho for d in got), "size-filter", f"a returned droplet has radius <= {rho}; {label}")
     # exact positive affine map
     a, b = case["a"], case["b"]
+    if case.get("extreme_map"):
+        # weak contrast on a large offset / huge contrast (still exact: dyadic data, a and b)
+        a, b = [(2.0 ** -10, 256.0), (2.0 ** -9, -512.0), (1024.0, 0.0), (2.0 ** -12, 1.0)][case["thr_seed"] % 4]
+        rec.count("extreme_affine_maps")
     mapped = a * data + b
     thr2 = (a * thr_arg + b) if rule == "number" else thr_arg
     c2, _ = analyse(mapped, thr2)
